@@ -191,7 +191,7 @@ func runStraceMonitor(c *kit.Check) {
 	work := filepath.Join(kit.WorkDir("C32"), "strace")
 	os.RemoveAll(work)
 	must(os.MkdirAll(work, 0755), "strace work dir")
-	n := 136
+	n := 4 * len(importClasses)
 	exe, err := os.Executable()
 	must(err, "executable")
 	trace := filepath.Join(work, "trace.txt")
